@@ -471,6 +471,11 @@ def gen_run(rng, cfg, nsess=None, big_p=0.15, exotic_p=0.08, base_k=0):
 def make_fault(rng, run):
     """ONE injected OSError inside the append of a session record; the session is given up, the life goes on."""
     ats = [i for i, o in enumerate(run['ops']) if o['op'] in ('eq', 'ep', 'et', 'ec')]
+    closes = [i for i, o in enumerate(run['ops']) if o['op'] == 'cs']
+    if closes and run['cfg']['max_size'] is not None and rng.random() < 0.35:
+        # the fault meets the warcinfo append of a size roll-over at session close: the OSError leaves session.close()
+        # and that ends the life (HEAD's application treats it as fatal); what is on disk must be valid
+        ats = closes
     if ats:
         run['fault'] = {'mode': 'fail', 'at': rng.choice(ats), 'nth': 0, 'rawwrite': rng.choice([1, 1, 1, 2, 3]),
                         'prefix': rng.choice(['half', 'half', 'half', 'zero', 'open'])}
@@ -635,6 +640,15 @@ class ArchiveFault:
         import io
         if not (self.armed and not self.fired and mode == 'ab' and self.is_archive(file)):
             return builtins.open(file, mode, *args, **kw)
+        if self.spec.get('at') == 'new-file':
+            # only the first append to each FURTHER archive file counts (the warcinfo record of a roll-over)
+            known = self.__dict__.setdefault('known_files', [])
+            name = os.fspath(file)
+            first_of_file = name not in known
+            if first_of_file:
+                known.append(name)
+            if not first_of_file or len(known) == 1:
+                return builtins.open(file, mode, *args, **kw)
         self.opens += 1
         if self.opens - 1 != self.spec.get('nth', 0):
             return builtins.open(file, mode, *args, **kw)
@@ -822,6 +836,7 @@ def run_real_life(directory, run, seed, die=False, side=None):
     snap_c05, snap_c07 = [], []
     die_after = run.get('die_after') if die else None
     dead_slots = set()
+    ended_by_fault = False
     software = cfg['software']
     spec = run.get('kill') if die else run.get('fault')
     fault = None
@@ -973,10 +988,16 @@ def run_real_life(directory, run, seed, die=False, side=None):
           except Infra:
               raise
           except OSError as e:
-              if fault is not None and fault.fired and fault.armed and 'injected' in str(e) and spec['mode'] == 'fail':
+              if fault is not None and fault.fired and fault.armed and spec['mode'] == 'fail':
+                  # (any OSError: the roll-back of an append whose open failed on a file that does not exist yet
+                  #  answers with FileNotFoundError in place of the injected error)
+                  fault.armed = False
+                  if op['op'] == 'cs':
+                      # a failed roll-over: the error leaves session.close(); the life ends here, without close()
+                      ended_by_fault = True
+                      break
                   # the injected fault came out of the event method as an OSError: give the session up, go on
                   dead_slots.add(op['k'])
-                  fault.armed = False
                   continue
               import traceback
               tb = traceback.extract_tb(e.__traceback__)
@@ -1003,7 +1024,7 @@ def run_real_life(directory, run, seed, die=False, side=None):
     after = read_dir(directory)
     return {'cfg': cfg, 'before': before, 'after': after, 'created': created, 'meta': meta,
             'model_ops': model_ops, 'software': software, 'raised': raised,
-            'snap_c05': snap_c05, 'snap_c07': snap_c07, 'completed': raised is None,
+            'snap_c05': snap_c05, 'snap_c07': snap_c07, 'completed': raised is None, 'ended_by_fault': ended_by_fault,
             'fault_fired': bool(fault and fault.fired)}
 
 
@@ -1531,7 +1552,9 @@ def run_scenario(scn, seed='s'):
                                               if run.get('die_after') is not None else
                                               'after the process died inside an append (%r), close() never ran' % (run.get('kill'),))
             out.c07 += oracle_c07(obs, by_file, obs['after'], expectations)
-            if obs.get('killed_in_append'):
+            if obs.get('ended_by_fault'):
+                out.tags.append('life:ended-by-failed-rollover')
+            elif obs.get('killed_in_append'):
                 out.tags.append('life:killed-in-append:%s' % ','.join(sorted(fname_token(n, obs['cfg']['compress']) .rstrip('0123456789') or 'main'
                                                                                for n in obs.get('torn', {})) or 'no-journal'))
             else:
